@@ -24,6 +24,11 @@ func (e *Env) call(x *ECall) Val {
 	case *ESel:
 		if id, ok := fn.X.(*EIdent); ok {
 			name = id.Name + "." + fn.Sel
+			if _, bound := e.bind[id.Name]; bound || e.isLocal(id.Name) {
+				return e.methodCall(fn, x)
+			}
+		} else {
+			return e.methodCall(fn, x)
 		}
 	}
 	if name == "" {
@@ -190,7 +195,10 @@ func (e *Env) call(x *ECall) Val {
 			g.includeAxiomsFor(full)
 			return Val{S: app(uf, as...), Sort: g.sortOf(rt), GT: rt}
 		}
-		e.fail("Go function %s can only be used in specs if it is an intrinsic or declared pure", full)
+		if v, ok := e.inlineGo(fn, args); ok {
+			return v
+		}
+		e.fail("Go function %s can only be used in specs if it is an intrinsic, declared pure, or inlinable in a lemma", full)
 	}
 	e.fail("unknown function %s in spec", name)
 	return Val{}
@@ -558,4 +566,77 @@ func typeText(x Expr) string {
 		return typeText(x.X) + "." + x.Sel
 	}
 	panic(specError{"expected a type, found " + exprString(x)})
+}
+
+// methodCall: x.M(args) on a real Go method, inlined (lemmas and ground contexts only).
+func (e *Env) methodCall(sel *ESel, x *ECall) Val {
+	g := e.g
+	recv := e.tr(sel.X)
+	if recv.GT == nil {
+		e.fail("method call on a spec value without Go type: %s", exprString(x))
+	}
+	ms := g.P.Prog.MethodSets.MethodSet(recv.GT)
+	var pkg *types.Package
+	if n, ok := derefNamed(recv.GT); ok {
+		pkg = n.Obj().Pkg()
+	}
+	s := ms.Lookup(pkg, sel.Sel)
+	if s == nil {
+		e.fail("type %s has no method %s", recv.GT, sel.Sel)
+	}
+	fn := g.P.Prog.MethodValue(s)
+	if fn == nil {
+		e.fail("method %s of %s has no body (interface method?)", sel.Sel, recv.GT)
+	}
+	args := []Val{recv}
+	for i, a := range x.Args {
+		v := e.tr(a)
+		if i+1 < len(fn.Params) {
+			v = e.concretize(v, fn.Params[i+1].Type())
+			if v.Sort == "Nil" {
+				v = g.zero(fn.Params[i+1].Type())
+			}
+		}
+		args = append(args, v)
+	}
+	if v, ok := e.inlineGo(fn, args); ok {
+		return v
+	}
+	e.fail("method %s cannot be inlined here", fullName(fn))
+	return Val{}
+}
+
+func derefNamed(t types.Type) (*types.Named, bool) {
+	if p, ok := t.(*types.Pointer); ok {
+		t = p.Elem()
+	}
+	n, ok := t.(*types.Named)
+	return n, ok
+}
+
+// inlineGo symbolically executes a real (loop-free or contracted) Go function inside a lemma.
+func (e *Env) inlineGo(fn *ssa.Function, args []Val) (Val, bool) {
+	g := e.g
+	if e.inQuant > 0 || e.lemmaFrame == nil {
+		return Val{}, false
+	}
+	fr := e.lemmaFrame
+	var rt types.Type = fn.Signature.Results()
+	if fn.Signature.Results().Len() == 1 {
+		rt = fn.Signature.Results().At(0).Type()
+	}
+	saveCur := fr.cur
+	fr.cur = e.heap.child()
+	var v Val
+	if fc := g.P.ContractFor(fn); fc != nil {
+		v = fr.applyContract(fn, fc, args, nil, rt)
+	} else if inlinable(fn) {
+		v = fr.inline(fn, args, nil, rt)
+	} else {
+		fr.cur = saveCur
+		return Val{}, false
+	}
+	// specs are evaluated in a fixed heap; effects of the inlined call are not propagated
+	fr.cur = saveCur
+	return v, true
 }
